@@ -1,6 +1,7 @@
 PROPS = ["CTV.Props.C19", "CTV.Lemmas.Witness", "CTV.Rfc6962.Merkle"]
 _PKG = "./internal/witness/cmd/witness/internal/witness/"
-HARNESS = [dict(pkg=_PKG, test="TestVerifC19", race=True), dict(pkg=_PKG, test="TestVerifC19Merkle")]
+HARNESS = [dict(pkg=_PKG, test="TestVerifC19", race=True), dict(pkg=_PKG, test="TestVerifC19Merkle"),
+           dict(pkg="./internal/witness/cmd/witness/internal/http/", test="TestVerifC19HTTP", model_args=["http"])]
 RULE = ("TestVerifC19: histories of Update/GetSTH/GetLogs on the real Witness over sqlite (:memory: and file, SetMaxOpenConns(1) as impl.Main), "
         "2-3 logs + 2 configured entries with undecodable IDs + unknown IDs, per log 2-4 tree forks of up to 8/20/40/70/130 leaves; candidates: "
         "forward along compatible/incompatible forks, equal size (identical / re-signed / other fork), stale, size 0, signed garbage root, "
